@@ -149,6 +149,7 @@ bool Hist::opRoundTrip(bool cont) {
 // C14 (in-process part): two saves of the same object are byte-identical and do not change it.
 bool Hist::opSaveTwice() {
     std::string p1 = savePath("s1"), p2 = savePath("s2");
+    if (rng.chance(50)) writeFileBytes(p2, std::string((size_t)rng.range(100, 200000), 'J'));   // the second destination already holds (usually longer) unrelated content
     log.pre("write_twice"); Outcome o1, o2; VF_TRY(o1, obj->write(p1)); VF_TRY(o2, obj->write(p2));
     log.ev("save_twice", shapeSig(prev), o1); bump("op:save_twice");
     Snap after = take(*obj); bump("c14_purity_checked");
